@@ -36,6 +36,10 @@ static uint64_t digest (SNDFILE *f, MemFile &mf)
 	int v [3] = { sf_command (f, SFC_GET_NORM_FLOAT, nullptr, 0), sf_command (f, SFC_GET_NORM_DOUBLE, nullptr, 0), sf_command (f, SFC_GET_CLIPPING, nullptr, 0) } ;
 	h = fnv1a (v, sizeof (v), h) ;
 	for (int s = SF_STR_FIRST ; s <= SF_STR_LAST ; s++) { const char *p = sf_get_string (f, s) ; if (p) h = fnv1a (p, strlen (p) + 1, h) ; else h = fnv1a ("\xff", 1, h) ; }
+	{	static SF_CUES cu ; memset (&cu, 0, sizeof (cu)) ; uint32_t n = 0 ; int r1 = sf_command (f, SFC_GET_CUE_COUNT, &n, sizeof (n)) ; int r2 = sf_command (f, SFC_GET_CUE, &cu, sizeof (cu)) ;
+		h = fnv1a (&r1, 4, h) ; h = fnv1a (&n, 4, h) ; h = fnv1a (&r2, 4, h) ; if (r2) h = fnv1a (&cu, sizeof (cu), h) ;
+		SF_INSTRUMENT in ; memset (&in, 0, sizeof (in)) ; int r3 = sf_command (f, SFC_GET_INSTRUMENT, &in, sizeof (in)) ; h = fnv1a (&r3, 4, h) ; if (r3) h = fnv1a (&in, sizeof (in), h) ;
+	}
 	h = fnv1a (mf.data.data (), mf.data.size (), h) ;
 	(void) err ;
 	return h ;
@@ -51,10 +55,10 @@ static std::set<int> open_fds ()
 // ---- op generation
 static std::string gen_op (int mode, bool valid_bias)
 {	// classes: r/w valid, rx ry rn (misaligned / wrong mode / negative), s valid seeks, sb sm so, c valid commands, cu cn, t strings, k chunks, o opens
-	static const char *valid [] = { "r", "r", "w", "w", "s", "s", "c", "t" } ;
-	static const char *invalid [] = { "rx", "rn", "wx", "wn", "sb", "sm", "so", "sn", "cu", "cn", "tr", "tn", "tu", "te", "te", "kn", "kf", "o0", "o1", "o2", "o3", "o4", "o5", "o6", "o7", "o8", "o9", "oA", "oB", "oC", "rm", "wm", "wq", "rq", "wq", "rq", "oD", "oE", "oF", "oG", "oH", "oI", "oJ" } ;
+	static const char *valid [] = { "r", "r", "w", "w", "s", "s", "c", "t", "cv" } ;
+	static const char *invalid [] = { "rx", "rn", "wx", "wn", "sb", "sm", "so", "sn", "cu", "cn", "tr", "tn", "tu", "te", "te", "kn", "kf", "o0", "o1", "o2", "o3", "o4", "o5", "o6", "o7", "o8", "o9", "oA", "oB", "oC", "rm", "wm", "wq", "rq", "wq", "rq", "oD", "oE", "oF", "oG", "oH", "oI", "oJ", "cq", "cq", "ci" } ;
 	std::string s ;
-	if (*rangeOf<int> (0, 9) < (valid_bias ? 6 : 4)) s = valid [*rangeOf<int> (0, 7)] ; else s = invalid [*rangeOf<int> (0, 42)] ;
+	if (*rangeOf<int> (0, 9) < (valid_bias ? 6 : 4)) s = valid [*rangeOf<int> (0, 8)] ; else s = invalid [*rangeOf<int> (0, 45)] ;
 	s += ":" ; s += "sifd" [*rangeOf<int> (0, 3)] ; s += *rangeOf<int> (0, 1) ? 'i' : 'f' ; s += std::to_string (*rc::gen::element (1, 2, 7, 64, 300)) ;
 	(void) mode ;
 	return s ;
@@ -236,6 +240,20 @@ static Result run_case (const Case &c)
 		else if (op [0] == 'c')
 		{	if (op == "cu") { int rc = sf_command (f, 0x7777 + (int) k, nullptr, 0) ; (void) rc ; expect_invalid = true ; tierA = true ; failed_value = true ; r.classes.push_back ("invalid:unknown_command") ; }
 			else if (op == "cn") { int rc = sf_command (f, SFC_GET_CURRENT_SF_INFO, nullptr, sizeof (SF_INFO)) ; expect_invalid = true ; tierA = true ; failed_value = rc != 0 ; err_in_return = true ; err_from_return = rc ;	/* docs/command.md: "zero on success, non-zero otherwise" - the code is the return value */ r.classes.push_back ("invalid:command_null") ; }
+			else if (op == "cv" || op == "cq" || op == "ci")
+			{	// cue points / instrument on a handle that can still take them: "cv" sets two cue points (valid), "cq" then offers a cue list whose
+				// count does not fit its size and "ci" an instrument with more loops than the structure holds - both must be refused and leave what is stored alone
+				if (mode == SFM_READ || have_written) continue ;
+				static SF_CUES cu ; memset (&cu, 0, sizeof (cu)) ;
+				if (op == "cv")
+				{	cu.cue_count = 2 ; for (uint32_t i = 0 ; i < 2 ; i++) { cu.cue_points [i].indx = (int) i + 1 ; cu.cue_points [i].sample_offset = 10 + 7 * i + (uint32_t) k ; cu.cue_points [i].fcc_chunk = 0x61746164 ; snprintf (cu.cue_points [i].name, sizeof (cu.cue_points [i].name), "cue %u", i) ; }
+					int rc = sf_command (f, SFC_SET_CUE, &cu, sizeof (cu)) ; r.classes.push_back (rc ? "valid:set_cue" : "valid:set_cue_refused") ; d0 = digest (f, mf) ; last_invalid = false ; continue ;
+				}
+				int rc ;
+				if (op == "cq") { cu.cue_count = 101 ; rc = sf_command (f, SFC_SET_CUE, &cu, sizeof (cu)) ; }
+				else { SF_INSTRUMENT in ; memset (&in, 0, sizeof (in)) ; in.loop_count = 17 ; rc = sf_command (f, SFC_SET_INSTRUMENT, &in, sizeof (in) - 8) ; }
+				expect_invalid = true ; failed_value = rc == SF_FALSE ; r.classes.push_back (op == "cq" ? "invalid:set_cue" : "invalid:set_instrument") ;
+			}
 			else { SF_INFO x ; int rc = sf_command (f, SFC_GET_CURRENT_SF_INFO, &x, sizeof (x)) ; if (rc != 0) return bail ("valid_command_failed", std::to_string (rc)) ; double mx ; if (mode != SFM_WRITE && !vox) sf_command (f, SFC_GET_SIGNAL_MAX, &mx, sizeof (mx)) ; checked = true ; r.classes.push_back ("valid:command") ; }
 		}
 		else if (op [0] == 't')
